@@ -2,7 +2,7 @@
    Property theorems only; proofs live in CssV.UptoFacts / CssV.SkeletonFacts.
    Models: CssV.Upto.upto (= util.Base._tokensupto2) and CssV.Skeleton (statement dispatch of
    cssstylesheet / cssmediarule, declaration loop of cssstyledeclaration, CSSUnknownRule stack),
-   following the repaired code (three fix: commits, see known_findings.d/C04.json).             *)
+   following the repaired code (six fix: commits, see known_findings.d/C04.json).                 *)
 From CssV Require Import Base Tokenizer Upto UptoFacts Skeleton SkeletonFacts.
 
 (* _tokensupto2 returns a prefix (after the start token) and hands back the rest, which is
@@ -103,29 +103,28 @@ Proof. exact junk_decl_with_bang_refuted. Qed.
 Print Assumptions junk_decl_with_bang_refuted_on_pinned.
 
 (* "An unknown but well-nested at-rule is not junk: it is preserved as an unknown rule with its
-   tokens intact."  Full statement: for every at-rule  @kw body  whose body is balanced.
-   Proved (unknown_atrule_preserved_partial, both statement shapes) for bodies whose tokens are
-   `usane`: no ATKEYWORD / INVALID / EOF token, brackets carried by CHAR / FUNCTION tokens.
-   Refuted for a nested at-keyword (open finding C04-nested-atkeyword-in-unknown).              *)
-Theorem unknown_atrule_preserved_partial : forall kw pre semi,
+   tokens intact."  For every at-rule  @kw body  whose body is balanced soup of `usane` tokens
+   (brackets are CHAR tokens, FUNCTION opens a parenthesis, no EOF, no INVALID = unterminated
+   string), nested at-keywords included (since fix "CSSUnknownRule keeps a nested at-keyword as
+   one of its own tokens"); both statement shapes:  @kw pre ;   and   @kw pre { b }            *)
+Theorem unknown_atrule_preserved : forall kw pre semi,
   tyis kw "ATKEYWORD" = true -> TopFree mdD pre -> all_usane pre ->
   tyis semi "CHAR" = true -> val semi = s ";" ->
   unknown_rule (kw :: pre ++ [semi]) = Some (kw, map UTok (pre ++ [semi])).
 Proof. exact unknown_atrule_preserved_semicolon. Qed.
-Print Assumptions unknown_atrule_preserved_partial.
+Print Assumptions unknown_atrule_preserved.
 
-Theorem unknown_atrule_preserved_block_partial : forall kw pre o b c,
+Theorem unknown_atrule_preserved_block : forall kw pre o b c,
   tyis kw "ATKEYWORD" = true -> TopFree mdD pre -> all_usane pre ->
   bclass_of o = BOpen 0 -> usane o = true -> Balanced b -> all_usane b ->
   bclass_of c = BClose 0 -> usane c = true ->
   unknown_rule (kw :: pre ++ o :: b ++ [c]) = Some (kw, map UTok (pre ++ o :: b ++ [c])).
 Proof. exact unknown_atrule_preserved_block. Qed.
-Print Assumptions unknown_atrule_preserved_block_partial.
+Print Assumptions unknown_atrule_preserved_block.
 
-(* '@unk (f) [g] {h {i}}' is preserved; '@unk x @y {}' is one complete statement for the sheet
-   loop but CSSUnknownRule rejects it *)
-Theorem unknown_atrule_preserved_refuted :
+(* '@unk (f) [g] {h {i}}' and '@unk x @y {}' (one complete statement for the sheet loop) are preserved *)
+Example unknown_atrule_preserved_ex :
   unknown_rule unk_good = Some (T "ATKEYWORD" "@unk", map UTok (tl unk_good))
-  /\ JunkStmt cls_sheet KUnknown unk_nested_at /\ unknown_rule unk_nested_at = None.
+  /\ JunkStmt cls_sheet KUnknown unk_nested_at
+  /\ unknown_rule unk_nested_at = Some (T "ATKEYWORD" "@unk", map UTok (tl unk_nested_at)).
 Proof. exact unknown_rule_examples. Qed.
-Print Assumptions unknown_atrule_preserved_refuted.
